@@ -203,6 +203,10 @@ def make_specs():
     di = c06.DispatcherInit()
     di.prop = PROP
     specs.append(di)
+    # 'exactly once to every handler': the dispatcher loop does not swallow an exception that cut a handler loop short
+    rl = c06.RunLoop("EventDispatcher")
+    rl.prop = PROP
+    specs.append(rl)
     return specs
 
 
